@@ -65,6 +65,10 @@ type FS struct {
 	open     map[*simFile]bool
 	Quiet    bool // no recording (post-run verification reopen)
 	NoData   bool // record writes without their payload
+	// FailOpenAt > 0: the n-th OpenFile call fails once, whoever makes it
+	// (read-only opens are made by the driver, which fault() leaves alone)
+	FailOpenAt int
+	opens      int
 }
 
 //go:norace
@@ -209,6 +213,13 @@ func (fs *FS) OpenFile(name string, flag int, perm os.FileMode) (moss.File, erro
 	simrt.Yield(siteFileOpen)
 	base := filepath.Base(name)
 	mut := flag&(os.O_CREATE|os.O_TRUNC|os.O_WRONLY|os.O_RDWR|os.O_APPEND) != 0
+	fs.opens++
+	if fs.FailOpenAt > 0 && fs.opens == fs.FailOpenAt {
+		fs.FaultSeen++
+		fs.Fired["open-eio"]++
+		fs.rec(FileOp{Kind: "OPEN", File: base, Flags: flag, Err: "EIO", Fault: "open-eio"})
+		return nil, errEIO
+	}
 	if flag&(os.O_CREATE|os.O_TRUNC) != 0 {
 		if f := fs.fault("open"); f != nil {
 			fs.fired(f.Kind)
